@@ -89,7 +89,8 @@ Theorem glue_keys_makefile : forall cwd wd ign data,
   fst (process_makefile cwd wd ign data) = map (glue_path cwd wd) (md_deps (md_parse ign data)).
 Proof. reflexivity. Qed.
 
-Theorem glue_keys_depinfo : forall data, fst (process_depinfo data) = di_inputs (di_parse data).
+Theorem glue_keys_depinfo : forall cwd wd data,
+  fst (process_depinfo cwd wd data) = map (glue_path cwd wd) (di_inputs (di_parse data)).
 Proof. reflexivity. Qed.
 
 (* directories as they reach the glue: "/" or "/x..." (an absolute path that does not begin with two separators) *)
@@ -246,7 +247,7 @@ Qed.
 Theorem glue_written_depinfo : forall cwd wd version recs,
   wf_operand version = true -> wf_recs recs = true ->
   process_discovered StyleDependencyInfo cwd wd [Some (di_write version recs)] =
-  (flat_map (fun r => match fst r with KInput => [snd r] | _ => [] end) recs, true).
+  (map (glue_path cwd wd) (flat_map (fun r => match fst r with KInput => [snd r] | _ => [] end) recs), true).
 Proof.
   intros cwd wd v recs Hv Hr.
   cbn [process_discovered process_files process_one]. unfold process_depinfo.
@@ -254,18 +255,18 @@ Proof.
   cbn [negb]. rewrite app_nil_r. reflexivity.
 Qed.
 
-(* REFUTED for the dependency-info style: its input paths are used verbatim as node keys
-   (processDependencyInfoDiscoveredDependencies::actOnInput has no counterpart of the resolution that
-   actOnRuleDependency performs), so a relative path reported by a command that runs in a working directory
-   other than the current directory of llbuild names a different file.
-   Witness: cwd [/w], working directory [/w/sub], file  00 v 00 10 h 00  (input [h]): the key is [h], not [/w/sub/h]. *)
-Theorem depinfo_relative_resolution_refuted :
+(* the glue before /repo commit ba34c0a (process_depinfo_v0: input paths used verbatim as node keys) REFUTED
+   "relative paths are resolved against the command's working directory" for the dependency-info style: a relative
+   path reported by a command that runs in a working directory other than the current directory of llbuild named
+   a different file.  Witness (replayed on llbuild by c11.py, corpus history depinfo-relative-wd): cwd [/w], working
+   directory [/w/sub], file  00 v 00 10 h 00  (input [h]): the v0 key is [h]; the key is now [/w/sub/h]. *)
+Theorem depinfo_v0_relative_resolution_refuted :
   exists cwd wd data p,
     simple_abs cwd = true /\ simple_abs wd = true /\ head_sep p = false /\
     di_parse data = [Version [118]; Input p] /\
-    process_discovered StyleDependencyInfo cwd wd [Some data] = ([p], true) /\
-    glue_path cwd wd p = [47; 119; 47; 115; 117; 98; 47; 104] /\
-    p <> glue_path cwd wd p.
+    process_depinfo_v0 data = ([p], true) /\
+    p <> glue_path cwd wd p /\
+    process_discovered StyleDependencyInfo cwd wd [Some data] = ([[47; 119; 47; 115; 117; 98; 47; 104]], true).
 Proof.
   exists [47; 119], [47; 119; 47; 115; 117; 98], [0; 118; 0; 16; 104; 0], [104].
   vm_compute. repeat split; try reflexivity. discriminate.
@@ -289,5 +290,5 @@ Example glue_result_instances :
   command_result StyleDependencyInfo [47; 119] [] [Some [0; 118; 0; 16; 0]] = CmdFailed /\
   command_result StyleMakefile [47; 119] [] [Some [116; 58; 32; 112; 10]] = CmdSucceeded /\
   process_discovered StyleMakefile [47; 119] [] [Some [116; 58; 32; 112; 10]] = ([[47; 119; 47; 112]], true) /\
-  process_discovered StyleDependencyInfo [47; 119] [] [Some [0; 118; 0; 16; 112; 0]] = ([[112]], true).
+  process_discovered StyleDependencyInfo [47; 119] [] [Some [0; 118; 0; 16; 112; 0]] = ([[47; 119; 47; 112]], true).
 Proof. vm_compute. repeat split; reflexivity. Qed.
